@@ -169,7 +169,7 @@ claim("C10",
       "Module::lookup returns the direct hits PLUS the hits through every redirect, for any number of redirects and whatever the direct lookup found "
       "(LK1, loop invariant LK2) - so a second candidate in another relation in scope is never missed; apply_args_to_closure returns Err whenever a named "
       "argument is not consumed by a named parameter of the callee (AA1-2); fold_function returns Err for more positional arguments than parameters, a "
-      "function value for fewer, and evaluates only a saturated call (FA1-3). what one path finds in one module (lookup_in, whole function; the recursion into sub-modules goes through the contract of Module::lookup): `p.rest` finds the members `rest` of the declaration p - of a nested module what its own lookup finds, of layered modules what the INNERMOST layer that finds anything finds (loop invariant over the reversed stack: shadowing), of anything else nothing - qualified with p; an undeclared name finds nothing; a single declared name finds itself or its `_self` (name_lookup LI1-6; Ident::pop_front PF1). `select !{..}` and the inference of a column of a wildcard table compare names exactly (lineage_except LE1-3, IC1-2). what one column of a frame declares: a named column its own name as that column, a star only the `_infer` placeholder of an input that exists in the frame, an unnamed column nothing - every other name untouched (frame_decls FD1-3). NOT proved: that an out-of-frame column has zero candidates (which declarations a frame inserts), relation / "
+      "function value for fewer, and evaluates only a saturated call (FA1-3). a name that can only be inferred is created from exactly one inference template, is unknown with none and an error with several (resolve_ident_fallback's decision, RF1-3). what one path finds in one module (lookup_in, whole function; the recursion into sub-modules goes through the contract of Module::lookup): `p.rest` finds the members `rest` of the declaration p - of a nested module what its own lookup finds, of layered modules what the INNERMOST layer that finds anything finds (loop invariant over the reversed stack: shadowing), of anything else nothing - qualified with p; an undeclared name finds nothing; a single declared name finds itself or its `_self` (name_lookup LI1-6; Ident::pop_front PF1). `select !{..}` and the inference of a column of a wildcard table compare names exactly (lineage_except LE1-3, IC1-2). what one column of a frame declares: a named column its own name as that column, a star only the `_infer` placeholder of an input that exists in the frame, an unnamed column nothing - every other name untouched (frame_decls FD1-3). NOT proved: that an out-of-frame column has zero candidates (which declarations a frame inserts), relation / "
       "scalar confusion.",
       "HashSet<Ident> is a shim with a ghost set view; in resolve_guards lookup_in is external (it is under contract in name_lookup, where Module::lookup is external: the mutual recursion is cut at the contracts, its termination is not proved); resolve_ident_wildcard, resolve_ident_fallback, ambiguous_error, expr_of_func are "
       "external; the drain loop over named parameters is replaced by its contract (stated in the evidence).")
